@@ -33,6 +33,10 @@ type Recorder struct {
 }
 
 func (r *Recorder) Setup(ev *SetupEv) {
+	if os.Getenv("VERIF_DEBUG") != "" {
+		b, _ := json.Marshal(ev)
+		fmt.Fprintf(os.Stderr, "SETUP %s\n", b)
+	}
 	r.cur = len(r.Events)
 	r.Events = append(r.Events, ev)
 	r.setupAt = append(r.setupAt, r.cur)
@@ -83,10 +87,15 @@ func (rec *Recorder) Validate(run *Run, shards int) *TraceSummary {
 	if len(rec.Events) == 0 {
 		run.Inconclusive("driver produced no events")
 	}
+	t0 := time.Now()
+	fmt.Printf("driver: %d events recorded in %.1fs; validating with TLC…\n", len(rec.Events), t0.Sub(run.Start).Seconds())
 	sum, err := ValidateTrace(CoreSpecDirs(), "ApiTrace", rec.Events, shards, rec.IsSetup, 20*time.Minute)
 	if err != nil {
 		run.Inconclusive("trace validation failed: %v", err)
 	}
+	fmt.Printf("tlc: %d events judged in %.1fs (%d skipped)\n", sum.Judged, time.Since(t0).Seconds(), sum.Skipped)
+	run.Coverage["traces_validated_against_impl"] = sum.Lines
+	run.Coverage["tlc_wall_s"] = time.Since(t0).Seconds()
 	for _, b := range sum.Bad {
 		setup := rec.Events[rec.setupAt[b.L]].(*SetupEv)
 		ev := rec.Events[b.L]
